@@ -134,8 +134,14 @@ func (e *Exec) binop(op token.Token, a, b Value, typ types.Type) Value {
 		switch op {
 		case token.ADD:
 			return e.strCat(sa, sb)
-		case token.LSS, token.GTR, token.LEQ, token.GEQ:
-			panic(unsupported("string ordering"))
+		case token.LSS:
+			return e.strLess(sa, sb)
+		case token.GTR:
+			return e.strLess(sb, sa)
+		case token.LEQ:
+			return tb.BNot(e.strLess(sb, sa))
+		case token.GEQ:
+			return tb.BNot(e.strLess(sa, sb))
 		}
 	}
 	x, okx := a.(*Term)
@@ -346,6 +352,27 @@ func (e *Exec) eqStr(x, y Str) *Term {
 		r = tb.BAnd(r, tb.BOr(tb.Cmp(OpUle, x.len, kk), eq))
 	}
 	return r
+}
+
+// strLess is the lexicographic (bytewise) order of two bounded strings.
+func (e *Exec) strLess(a, b Str) *Term {
+	tb := e.tb
+	n := a.max
+	if b.max > n {
+		n = b.max
+	}
+	// beyond position n both strings are exhausted: not less
+	less := tb.False()
+	for k := n - 1; k >= 0; k-- {
+		kk := tb.BVu(uint64(k), 64)
+		aEnd := tb.Cmp(OpUle, a.len, kk)
+		bEnd := tb.Cmp(OpUle, b.len, kk)
+		ak := tb.Select(a.arr, tb.Bin(OpAdd, a.off, kk))
+		bk := tb.Select(b.arr, tb.Bin(OpAdd, b.off, kk))
+		here := tb.Ite(tb.Cmp(OpUlt, ak, bk), tb.True(), tb.Ite(tb.Cmp(OpUlt, bk, ak), tb.False(), less))
+		less = tb.Ite(aEnd, tb.BNot(bEnd), tb.Ite(bEnd, tb.False(), here))
+	}
+	return less
 }
 
 // blend writes n bytes of src (from soff) into dst at doff; n may be symbolic
